@@ -7,7 +7,7 @@ CHECKS = {
  "C01": dict(
    technique="TLA+ model checking (TLC, complete for all capacities/phases) + bidirectional conformance: TLC-emitted observer tables replayed on the real Window, recorded traces validated by a TLA+ trace spec",
    category="model_checking",
-   text="spec/Window.tla gives the ring buffer twice (implementation-shaped PeriodType arithmetic; abstract 'last N pushes'); TLC proves every observer, iterator split, from_parts and serde round trip equal on ALL capacities 0..254 and every rotation phase (finite, complete for the default PeriodType). The model is bound to the code both ways: TLC prints the observer table of every state for capacities 0..9,253,254 and the harness compares all observers of real Window<u32|String|(u8,u64)|f64> objects with it; random programs (incl. adversarial from_parts/deserialize arguments) on the real type are recorded and validated event by event against the abstract machine by TLC.",
+   text="spec/Window.tla gives the ring buffer twice (implementation-shaped PeriodType arithmetic; abstract 'last N pushes'); TLC proves every observer, iterator split, from_parts and serde round trip equal on ALL capacities 0..254 and every rotation phase (finite, complete for the default PeriodType). The model is bound to the code both ways: TLC prints the observer table of every state for capacities 0..9,253,254 and the harness compares all observers of real Window<u32|String|(u8,u64)|f64> objects with it; random programs (incl. clone_from onto a window in another ring phase and adversarial from_parts/deserialize arguments) on the real type are recorded and validated event by event against the abstract machine by TLC.",
    design_ref="DESIGN.md 5/C01",
    note="Trusts TLC, the Json/IOUtils community modules and the harness adapters; labels stand for arbitrary element values (the container is parametric). Capacities beyond 254 (wider PeriodType features) are covered under C20."),
  "C04": dict(
@@ -50,7 +50,7 @@ CHECKS = {
  "C13": dict(
    technique="TLA+ model checking (Window Serialize/Deserialize in every phase, SMM restore in every reachable state) + Api.tla snapshot programs and restore-before-every-call replays on TLC-enumerated streams, bit-exact",
    category="model_checking",
-   text="Window.tla's Deserialize (validation, empty window) and Selection.tla's SmmRestore (slice rebuilt by sorting) are model-checked: a restored instance reads/continues like the original in every reachable state. Binding: Api.tla programs with snapshot/clone at every position replayed on all 47 method subjects through serde_json (lossless floats), original and restored futures bit-identical; every MA kind in every MA-typed field, every source and every flag of every indicator configuration round-trips (config and running instance; field types are discovered through set(), not through the serialized form); every TLC-enumerated token stream replayed with the instance replaced by its restored snapshot before every call (signed zeros, ties); recorded Window programs with adversarial (buf,index) documents validated by Trace_Window (Err, never panic).",
+   text="Window.tla's Deserialize (validation, empty window) and Selection.tla's SmmRestore (slice rebuilt by sorting) are model-checked: a restored instance reads/continues like the original in every reachable state. Binding: Api.tla programs with snapshot/clone at every position replayed on all 47 method subjects through serde_json (lossless floats), original and restored futures bit-identical (two carriers: serde_json and an in-memory self-describing format that keeps floats native, so NaN fields such as the volume of a candle built from a 4-tuple survive); a snapshot at EVERY step of 260-step regime streams restores for all 47 subjects; Renko's restored brick boundaries are probed behaviourally; every MA kind in every MA-typed field, every source and every flag of every indicator configuration round-trips (config and running instance; field types are discovered through set(), not through the serialized form); every TLC-enumerated token stream replayed with the instance replaced by its restored snapshot before every call (signed zeros, ties); recorded Window programs with adversarial (buf,index) documents validated by Trace_Window (Err, never panic).",
    design_ref="DESIGN.md 5/C13",
    note="serde_json with float_roundtrip is the carrier; indicator instances/configs are added with the indicator registry."),
  "C16": dict(
